@@ -41,7 +41,7 @@ KeyKind(k) == IF \E j \in 1..Len(k) : k[j] >= 240 THEN "astral" ELSE IF \E j \in
               ELSE IF \E j \in 1..Len(k) : k[j] \in {34, 39, 92} \/ k[j] < 32 \/ k[j] = 127 THEN "escaped" ELSE "plain"
 DiffName(f) == IF f.f = "child" THEN "child(" \o KeyKind(f.k) \o ")" ELSE FName(f)
 \* an accepted text in which a "*" directly follows a sub-path (a name byte, "]", "@", "$"): the product written without blanks
-TightStar(b) == \E j \in 2..Len(b) : b[j] = 42 /\ (b[j - 1] \in NameAcc \/ b[j - 1] \in {93, 64, 36})
+TightStar(b) == \E j \in 2..Len(b) : b[j] = 42 /\ (b[j - 1] \in NameAcc \/ b[j - 1] \in {93, 64, 36, 42})
 LocusOf(ev, r, kind) ==
     IF ~r.ok THEN <<r.at, Cls(At(ev.b, r.i))>>
     ELSE IF TightStar(ev.b) /\ kind \in {"rejects-valid", "wrong-denotation"} THEN <<"tight-product-after-path", "-">>
